@@ -204,6 +204,9 @@ func TestDriveC16(t *testing.T) {
 	for i := 0; i < n; i++ {
 		sseed := r.Int63()
 		variation := int((seed+int64(i))%3) + 10*int(((seed+int64(i))/3)%3) // variation + 10 * kind of fault
+		if (seed+int64(i))%4 == 0 {
+			variation += 100 // all fans are analysed by the PWM-map sweep of computePwmMap only, and start close together
+		}
 		body := func() { runC16Scenario(rec, rand.New(rand.NewSource(sseed)), parallel, nfMax, variation) }
 		if parallel {
 			synctest.Test(t, func(t *testing.T) { body() })
@@ -247,6 +250,12 @@ func runC16Scenario(rec *Recorder, r *rand.Rand, parallel bool, nfMax int, varia
 		rf.Pwm0 = r.Intn(256)
 		rf.Mode0 = 2
 		rf.StartDelay = time.Duration(r.Intn(2500)) * time.Millisecond
+		if variation >= 100 {
+			// file fans store default RPM data on their first start and get their PWM map from the sweep inside
+			// computePwmMap (not from the initialization sequence): these sweeps must not overlap either
+			rf.Spec = FanSpec{Kind: "file", HasRpm: r.Intn(2) == 0, N: 10, Alg: AlgSpec{T: "direct"}}
+			rf.StartDelay = time.Duration(r.Intn(600)) * time.Millisecond
+		}
 		if k == 0 && r.Intn(2) == 0 {
 			rf.StartDelay = 0
 		}
@@ -291,7 +300,7 @@ func runC16Scenario(rec *Recorder, r *rand.Rand, parallel bool, nfMax int, varia
 	inAnalysis := 0 // fans between AnalysisStart and AnalysisEnd
 	faultReg := []string{"rpm", "pwm"}[r.Intn(2)]
 	faultN := 1 + r.Intn(3)
-	faultKind := variation / 10
+	faultKind := variation / 10 % 10
 	variation = variation % 10
 	faultSkip := r.Intn(6)
 	phases := 0
